@@ -59,4 +59,19 @@ CHECKS = {
                   "quick": {"count": 320, "budget": 75, "workers": 8},
                   "thorough": {"count": 100000, "budget": 1200, "workers": 16}}],
     },
+    "C18": {
+        "level": "exploration",
+        "rule": ("two of three evaluations are S-ACT histories: 40-300 (thorough: 200-2000) evaluation points (time, summary state) for the 1-4 "
+                 "actions of a generated deck, steps from 0 s to years incl. points landing exactly on last-run + min_wait (+-1 s), summary values "
+                 "scattered around each threshold, Action::State shipped through the Serializer every few points; the third is a full S-RUN where "
+                 "firing actions mutate the Schedule. At every point pending() is compared with the count/wait/start model and every evaluation "
+                 "with the reference evaluator (truth value and matching-well set). distinct = hash of (kind, per action: comparisons, max_run, "
+                 "min_wait, quantities, logic, parentheses; firings); non-trivial = >= 5 evaluations of >= 1 action"),
+        "assumptions": ["reference evaluator (scen/srun/actref.hpp) written from the statement: AND over OR, parentheses, MNTH rounding rule, sets: intersection under AND, union under OR, scalar or false sub-conditions contribute no set",
+                        "max_run and min_wait are read from the ActionX object (inputs of the state machine), cross-checked against the generated deck",
+                        "conditions the real parser rejects are not generated"],
+        "bins": [{"name": "c18", "srcs": ["scen/c18_actionx.cpp", "scen/srun/model.cpp", "scen/srun/driver.cpp"],
+                  "quick": {"count": 1600, "budget": 70, "workers": 8},
+                  "thorough": {"count": 400000, "budget": 900, "workers": 16}}],
+    },
 }
